@@ -111,6 +111,14 @@ theorem ordered_complete {P : Params} (hP : P.lo ≤ P.hi) (hm : P.mode = .order
     s.delivered = fullRange P ∧ s.ended = true ∧ s.errs = 0 :=
   ordered_complete_thm hP hm hp hr hterm
 
+/-- The UTXO scan is complete: at the end of a maximal run without fault and without cancel `UpdateUtxos`
+has returned nil and has applied exactly `[lo..hi]` in order (so by `utxo_scan_eq_sequential` the set equals
+the sequential fold over the range). -/
+theorem utxo_complete {P : Params} (hP : P.lo ≤ P.hi) (hm : P.mode = .utxo) (hp : 0 < P.p) {s : State}
+    (hr : ReachableNF P s) (hterm : ∀ l s', Step P s l s' → l = some .cancel) :
+    s.ret = some true ∧ s.delivered = fullRange P :=
+  utxo_complete_thm hP hm hp hr hterm
+
 /-- Complete or error: a maximal run of ordered streaming (with any faults) that saw no cancel and in which
 `next()` returned no error has delivered exactly `[lo..hi]` and signalled the end. -/
 theorem ordered_complete_or_error {P : Params} (hP : P.lo ≤ P.hi) (hm : P.mode = .ordered) {s : State}
